@@ -14,8 +14,8 @@
 (*                      (TransportRaise); a custom transport is free to    *)
 (*                      hand the response back (TransportPass).  A package *)
 (*                      whose endpoints module cannot be imported never    *)
-(*                      gets this far (LoadFails - C01's finding, counted  *)
-(*                      and not judged here);                              *)
+(*                      gets this far (LoadFails - never enabled any more, *)
+(*                      see DispatchCore!Importable);                      *)
 (*   stage "match"      the generated `match response.status_code:` - one  *)
 (*                      action per kind of case the generator emits        *)
 (*                      (CasePrimary, CaseDeclared, CaseRange, CaseDefault,*)
@@ -71,7 +71,8 @@ PrimaryFirstListed == stage = "select" /\ ~HasSuccess(decl) /\ ~HasDefault(decl)
 
 Finish(o) == outcome' = o /\ stage' = "done" /\ UNCHANGED <<scen, primary>>
 
-\* `from <core> import Error302`: the client package cannot be imported, no call is ever made
+\* the client package cannot be imported, no call is ever made.  Never enabled since /repo 5b87475 (it used to be
+\* `from <core> import Error302` for a declared 1xx/3xx key); kept so that the outcome "unimportable" stays expressible
 LoadFails ==
   /\ stage = "transport" /\ ~Importable(Variant, decl)
   /\ Finish(Unimportable)
